@@ -18,6 +18,7 @@ import (
 func fmtRequirementsSkip() *format {
 	junk := [][]string{
 		{"-r other.txt"},
+		{"  -r other.txt", "\t--index-url https://pypi.org/simple", "  # not-a-package==9.9.9"},
 		{"--index-url https://${PYPI_HOST}/simple"},
 		{`--extra-index-url \`, "    https://download.pytorch.org/whl/cpu"},
 		{`--extra-index-url \`, "    https://${PYPI_HOST}/simple"},
@@ -27,7 +28,7 @@ func fmtRequirementsSkip() *format {
 		{`--index-url https://${PYPI_HOST}/simple \`, "    --trusted-host pypi.internal"},
 		{`--trusted-host \`, `    pypi.internal \`, "    # nothing else"},
 	}
-	labels := []string{"-r", "envvar-option", "continued-option", "continued-option-envvar-in-continuation",
+	labels := []string{"-r", "indented-options-and-comment", "envvar-option", "continued-option", "continued-option-envvar-in-continuation",
 		"continued-option-trailing-comment", "comment-ending-in-backslash", "continued--r", "envvar-option-continued",
 		"continued-option-ending-in-comment-line"}
 	f := &format{
